@@ -1,0 +1,12 @@
+//go:build verif
+
+package seqio
+
+// Interface-level contracts used by the deductive verifier in /verif (govc).
+// Only compiled with -tags verif.
+
+// Setting the name or description only modifies the receiver (assumption on implementations).
+//@ func (SequenceAppender).SetName
+//@   pure
+//@ func (SequenceAppender).SetDescription
+//@   pure
